@@ -261,6 +261,15 @@ def numLead (l1 : List Char) : R (List Char × Bool × Bool × Bool × List Char
       else .ok ([], false, false, false, l1)
   else .ok ([], false, false, false, l1)
 
+/-- leading part and integer digits: (consumed, is_float, is_binary_integer, is_hex_integer, remaining) -/
+def numIntPart (l1 : List Char) : R (List Char × Bool × Bool × Bool × List Char) :=
+  match numLead l1 with
+  | .error e => .error e
+  | .ok (ld, isFloat0, isBin, isHexI, l2) =>
+    match digitsSep l2 with
+    | .error e => .error e
+    | .ok (ds, l3) => .ok (ld ++ ds, isFloat0, isBin, isHexI, l3)
+
 /-- decimal part: (consumed, is_float, remaining) -/
 def numDec (isHexI isBin isFloat0 : Bool) (l3 : List Char) : R (List Char × Bool × List Char) :=
   match l3 with
@@ -328,8 +337,7 @@ def parseNumber (l : List Char) : R (List Char × List Char) := do
   if hasSign && l1.isEmpty then .error (err "CxxTokenizer::parseNumber" "invalid number") else
   let c1 := peek l1
   if !(isDigit c1) && c1 ≠ '.' then .error (errC "CxxTokenizer::parseNumber" "expected digit, read '" c1) else
-  let (ld, isFloat0, isBin, isHexI, l2) ← numLead l1
-  let (ds, l3) ← digitsSep l2
+  let (ip, isFloat0, isBin, isHexI, l3) ← numIntPart l1
   let (fs, isFloat1, l4) ← numDec isHexI isBin isFloat0 l3
   noDot l4
   let (es, isFloat, l5) ← numExp isHexI isBin isFloat1 l4
@@ -338,7 +346,7 @@ def parseNumber (l : List Char) : R (List Char × List Char) := do
   noDot l6
   let (us, l7) ← numUdl l6
   noDot l7
-  .ok (sgn ++ ld ++ ds ++ fs ++ es ++ sf ++ us, l7)
+  .ok (sgn ++ ip ++ fs ++ es ++ sf ++ us, l7)
 
 def numberValue (consumed : List Char) : List Char := consumed.filter (· ≠ '\'')
 
